@@ -15,14 +15,10 @@
      downsampling.downsample_rand  -> limit_events (np.random.choice = oracle)
      RTDCBase.reset_filter         -> step Reset
 
-   [see_removed] selects the repaired diff (fixes_proposed/
-   C03-removed-range-keys.diff, commit 1ad19c0): keys that were present at the
-   previous application and are gone now are also reported as changed.
-   [see_removed = false] is the code before that repair.
-   The ValueError for a range with only one of its two keys is raised before
-   any box filter is modified (fixes_proposed/
-   C03-valueerror-before-mutation.diff); [err] records that the last
-   operation raised.
+   [vr : variant] says which repairs of Filter.update are present ([HEAD]:
+   all of them); the earlier code is kept for the refutations in Props.
+   [err] records that the last operation raised ValueError (a range with only
+   one of its two keys).
 
    Arrays are [list bool] of one entry per event. Feature data are stored per
    event ([row]): the column of feature f is [col f]. A polygon's geometric
@@ -173,8 +169,20 @@ Record fstate := {
   old_rng : ranges                             (* _old_config (range keys) *)
 }.
 
-(* [err]: the last operation raised ValueError *)
-Record world := { cfg : config; reg : registry; flt : fstate; err : bool }.
+(* [feats]: rtdc_ds.features_scalar (temporary features come and go; the data
+   of a feature never changes); [err]: the last operation raised ValueError *)
+Record world := { cfg : config; reg : registry; flt : fstate;
+                  feats : list Z; err : bool }.
+
+(* which of the three repairs of Filter.update are present *)
+Record variant := {
+  see_removed : bool;   (* 1ad19c0: keys removed from the settings count as changed *)
+  precheck : bool;      (* 2db14c2: min/max pairing is checked before any box filter is modified *)
+  late_feats : bool     (* fixes_proposed/C03-range-on-late-feature.diff: features with
+                           a range key but without box filter are refiltered *)
+}.
+Definition HEAD : variant :=
+  {| see_removed := true; precheck := true; late_feats := true |}.
 
 Inductive op :=
 | SetMin (f : Z) (v : fval)          (* cfg["f min"] = v *)
@@ -189,6 +197,8 @@ Inductive op :=
 | SetEnable (b : bool)
 | SetLimit (k : Z)
 | EditManual (i : Z) (b : bool)      (* ds.filter.manual[i] = b *)
+| AddFeat (f : Z)                    (* set_temporary_feature(ds, f, data) *)
+| DelFeat (f : Z)                    (* the temporary feature is deregistered *)
 | Reset                              (* ds.reset_filter() *)
 | Apply (force : list Z).            (* ds.apply_filter(force) *)
 
@@ -198,9 +208,8 @@ Section Filter.
   Variable choice : Z -> Z -> list Z.  (* seeded np.random.choice(arange(m), k, replace=False) *)
   (* the dataset *)
   Variable rows : list row.
-  Variable feats : list Z.             (* rtdc_ds.features_scalar *)
   (* the code variant *)
-  Variable see_removed : bool.
+  Variable vr : variant.
 
   Definition ones : list bool := map (fun _ => true) rows.   (* np.ones(size, bool) *)
   Definition col (f : Z) : list fval := map (fun r => val r f) rows.
@@ -210,8 +219,9 @@ Section Filter.
        a_all := ones; a_box := ones; a_polygon := ones; a_invalid := ones;
        manual := ones; old_rng := [] |}.
 
-  Definition init_world (reg0 : registry) : world :=
-    {| cfg := default_config; reg := reg0; flt := reset_fstate; err := false |}.
+  Definition init_world (reg0 : registry) (feats0 : list Z) : world :=
+    {| cfg := default_config; reg := reg0; flt := reset_fstate;
+       feats := feats0; err := false |}.
 
   (* --- Filter.update, part 0: which features must be refiltered ---------- *)
   (* for skey in cfg_cur.keys(): if cfg_cur[skey] != cfg_old.get(skey, None) *)
@@ -241,11 +251,32 @@ Section Filter.
                 if key_removed mn (fst (rget cur f)) || key_removed mx (snd (rget cur f))
                 then [f] else []) old.
 
-  Definition feat2filter (cur old : ranges) (force : list Z) : list Z :=
+  (* (late_feats) for feat in self.features: if feat not in self._box_filters
+     and (feat + " min" in cfg_cur or feat + " max" in cfg_cur) *)
+  Definition has_any_key (rg : ranges) (f : Z) : bool :=
+    match rget rg f with (None, None) => false | _ => true end.
+
+  Definition late_keys (fs : list Z) (cur : ranges) (bf : list (Z * list bool)) : list Z :=
+    filter (fun f => negb (has_key f bf) && has_any_key cur f) fs.
+
+  (* np.unique(feat2filter) without its sorting, see [sortZ] below *)
+  Definition feat2filter (sr lt : bool) (fs : list Z) (bf : list (Z * list bool))
+             (cur old : ranges) (force : list Z) : list Z :=
     nodup Z.eq_dec
           (changed_keys cur old
-           ++ (if see_removed then removed_keys cur old else [])
-           ++ force).
+           ++ (if sr then removed_keys cur old else [])
+           ++ force
+           ++ (if lt then late_keys fs cur bf else [])).
+
+  (* np.unique returns the names sorted; feature numbers are ordered like the
+     names. The order is observable only when the loop itself can raise
+     (code before 2db14c2). *)
+  Fixpoint insert_sorted (x : Z) (l : list Z) : list Z :=
+    match l with
+    | [] => [x]
+    | y :: l' => if x <=? y then x :: l else y :: insert_sorted x l'
+    end.
+  Definition sortZ (l : list Z) : list Z := fold_right insert_sorted [] l.
 
   (* --- part 2: one feature's min/max filter ------------------------------- *)
   Definition box_mask (lo hi : fval) (data : list fval) : list bool :=
@@ -254,9 +285,9 @@ Section Filter.
     then map (fun x => if fisnan x then false else fle a x && fle x b) data
     else map (fun x => fle a x && fle x b) data.
 
-  Definition box_one (cur : ranges) (bf : list (Z * list bool)) (f : Z)
+  Definition box_one (fs : list Z) (cur : ranges) (bf : list (Z * list bool)) (f : Z)
     : list (Z * list bool) :=
-    if memZ f feats then
+    if memZ f fs then
       match rget cur f with
       | (Some lo, Some hi) =>
           if fne lo hi then dict_set f (box_mask lo hi (col f)) bf
@@ -266,11 +297,11 @@ Section Filter.
     else bf.                 (* warning only *)
 
   (* --- part 1: invalid events --------------------------------------------- *)
-  Definition invalid_arr (rm : bool) : list bool :=
+  Definition invalid_arr (fs : list Z) (rm : bool) : list bool :=
     if rm then
       fold_left (fun acc f =>
                    band acc (map (fun x => negb (fisinf x || fisnan x)) (col f)))
-                feats ones
+                fs ones
     else ones.
 
   (* --- part 3: polygon filters -------------------------------------------- *)
@@ -303,41 +334,64 @@ Section Filter.
     let sub' := band sub idx in                             (* sub[~idx] = False *)
     scatter a sub'.                                         (* arr_all[arr_all] = sub *)
 
+  (* code before 2db14c2: the pairing check sits inside the loop, box filters
+     of earlier features have been recomputed when it raises *)
+  Fixpoint box_seq (fs : list Z) (cur : ranges) (F : list Z) (bf : list (Z * list bool))
+    : list (Z * list bool) * bool :=
+    match F with
+    | [] => (bf, false)
+    | f :: F' => if half_set cur f then (bf, true)
+                 else box_seq fs cur F' (box_one fs cur bf f)
+    end.
+
+  (* _init_rtdc_ds: box filters of features that left the dataset are dropped *)
+  Definition prune_box (fs : list Z) (bf : list (Z * list bool)) :=
+    filter (fun e => memZ (fst e) fs) bf.
+
   Definition update (w : world) (force : list Z) : world :=
     let c := cfg w in
     let s := flt w in
+    let fs := feats w in
+    let bf0 := prune_box fs (box_filters s) in
     let pf0 := prune_polys (polys c) (poly_filters s) in
-    let inval := invalid_arr (rm_invalid c) in
-    let f2f := feat2filter (rng c) (old_rng s) force in
-    if existsb (half_set (rng c)) f2f then
-      (* raise ValueError("Box filter: Please make sure that both ... are
-         set!") before any box filter is modified; the polygon cache has been
-         pruned and the invalid array recomputed by then *)
+    let inval := invalid_arr fs (rm_invalid c) in
+    let f2f := feat2filter (see_removed vr) (late_feats vr) fs bf0
+                           (rng c) (old_rng s) force in
+    (* raise ValueError("Box filter: Please make sure that both ... are set!"):
+       the caches have been pruned and the invalid array recomputed by then *)
+    let raised (bf : list (Z * list bool)) : world :=
       {| cfg := c; reg := reg w;
-         flt := {| box_filters := box_filters s; poly_filters := pf0;
+         flt := {| box_filters := bf; poly_filters := pf0;
                    a_all := a_all s; a_box := a_box s; a_polygon := a_polygon s;
                    a_invalid := inval; manual := manual s;
                    old_rng := old_rng s |};
-         err := true |}
+         feats := fs; err := true |} in
+    let finish (bf : list (Z * list bool)) : world :=
+      let box := fold_left band (map snd bf) ones in
+      let pf := fold_left (poly_one (reg w)) (polys c) pf0 in
+      let polygon := fold_left band (map (fun e => snd (snd e)) pf) ones in
+      let all :=
+        if enable c then
+          let a := band (band (band box inval) polygon) (manual s) in
+          if 0 <? limit c then limit_events a (limit c) else a
+        else ones in
+      {| cfg := c; reg := reg w;
+         flt := {| box_filters := bf; poly_filters := pf;
+                   a_all := all; a_box := box; a_polygon := polygon;
+                   a_invalid := inval; manual := manual s;
+                   old_rng := rng c |};
+         feats := fs; err := false |} in
+    if precheck vr then
+      if existsb (half_set (rng c)) f2f then raised bf0
+      else finish (fold_left (box_one fs (rng c)) f2f bf0)
     else
-    let bf := fold_left (box_one (rng c)) f2f (box_filters s) in
-    let box := fold_left band (map snd bf) ones in
-    let pf := fold_left (poly_one (reg w)) (polys c) pf0 in
-    let polygon := fold_left band (map (fun e => snd (snd e)) pf) ones in
-    let all :=
-      if enable c then
-        let a := band (band (band box inval) polygon) (manual s) in
-        if 0 <? limit c then limit_events a (limit c) else a
-      else ones in
-    {| cfg := c; reg := reg w;
-       flt := {| box_filters := bf; poly_filters := pf;
-                 a_all := all; a_box := box; a_polygon := polygon;
-                 a_invalid := inval; manual := manual s;
-                 old_rng := rng c |};
-       err := false |}.
+      match box_seq fs (rng c) (sortZ f2f) bf0 with
+      | (bf, true) => raised bf
+      | (bf, false) => finish bf
+      end.
 
   Definition set_cfg (w : world) (c : config) : world :=
-    {| cfg := c; reg := reg w; flt := flt w; err := false |}.
+    {| cfg := c; reg := reg w; flt := flt w; feats := feats w; err := false |}.
 
   Definition set_rng (w : world) (rg : ranges) : world :=
     let c := cfg w in
@@ -359,12 +413,12 @@ Section Filter.
                      limit := limit c; polys := remove_first id (polys c) |}
     | ModPoly id v =>
         {| cfg := c; reg := dict_set id (v, snd (reg_get (reg w) id)) (reg w);
-           flt := flt w; err := false |}
+           flt := flt w; feats := feats w; err := false |}
     | InvertPoly id =>
         {| cfg := c;
            reg := dict_set id (fst (reg_get (reg w) id),
                                negb (snd (reg_get (reg w) id))) (reg w);
-           flt := flt w; err := false |}
+           flt := flt w; feats := feats w; err := false |}
     | SetInvalid b =>
         set_cfg w {| rng := rng c; rm_invalid := b; enable := enable c;
                      limit := limit c; polys := polys c |}
@@ -383,13 +437,20 @@ Section Filter.
                      manual := if (0 <=? i) then set_nth (Z.to_nat i) b (manual s)
                                else manual s;
                      old_rng := old_rng s |};
-           err := false |}
+           feats := feats w; err := false |}
     | Reset =>
         (* Filter.reset(); config._init_default_filter_values(): the five
            default keys are overwritten, the range keys stay *)
         {| cfg := {| rng := rng c; rm_invalid := false; enable := true;
                      limit := 0; polys := [] |};
-           reg := reg w; flt := reset_fstate; err := false |}
+           reg := reg w; flt := reset_fstate; feats := feats w; err := false |}
+    | AddFeat f =>
+        {| cfg := c; reg := reg w; flt := flt w;
+           feats := if memZ f (feats w) then feats w else feats w ++ [f];
+           err := false |}
+    | DelFeat f =>
+        {| cfg := c; reg := reg w; flt := flt w;
+           feats := filter (fun g => negb (g =? f)) (feats w); err := false |}
     | Apply force => update w force
     end.
 
@@ -406,24 +467,25 @@ Section Filter.
     | _ => true
     end.
 
-  Definition spec_box_row (rg : ranges) (r : row) : bool :=
-    forallb (fun f => spec_feat rg f r) feats.
+  Definition spec_box_row (fs : list Z) (rg : ranges) (r : row) : bool :=
+    forallb (fun f => spec_feat rg f r) fs.
 
-  Definition spec_invalid_row (rm : bool) (r : row) : bool :=
-    if rm then forallb (fun f => negb (fisnan (val r f) || fisinf (val r f))) feats
+  Definition spec_invalid_row (fs : list Z) (rm : bool) (r : row) : bool :=
+    if rm then forallb (fun f => negb (fisnan (val r f) || fisinf (val r f))) fs
     else true.
 
   Definition spec_poly_row (rg : registry) (ids : list Z) (r : row) : bool :=
     forallb (fun id => xorb (snd (reg_get rg id)) (pin r (fst (reg_get rg id)))) ids.
 
-  Definition spec_box (w : world) := map (spec_box_row (rng (cfg w))) rows.
-  Definition spec_invalid (w : world) := map (spec_invalid_row (rm_invalid (cfg w))) rows.
+  Definition spec_box (w : world) := map (spec_box_row (feats w) (rng (cfg w))) rows.
+  Definition spec_invalid (w : world) :=
+    map (spec_invalid_row (feats w) (rm_invalid (cfg w))) rows.
   Definition spec_polygon (w : world) := map (spec_poly_row (reg w) (polys (cfg w))) rows.
 
   (* events that qualify: all range, polygon, invalid-value and manual criteria *)
   Definition spec_qual (w : world) : list bool :=
-    band (map (fun r => spec_box_row (rng (cfg w)) r
-                        && spec_invalid_row (rm_invalid (cfg w)) r
+    band (map (fun r => spec_box_row (feats w) (rng (cfg w)) r
+                        && spec_invalid_row (feats w) (rm_invalid (cfg w)) r
                         && spec_poly_row (reg w) (polys (cfg w)) r) rows)
          (manual (flt w)).
 
@@ -474,7 +536,9 @@ Definition dec_op (t : Z * list Z * list (Z * Z)) : list op :=
   else if tag =? 12 then [SetMin a0 v0]
   else if tag =? 13 then [SetMax a0 v0]
   else if tag =? 14 then [DelMin a0]
-  else [DelMax a0].
+  else if tag =? 15 then [DelMax a0]
+  else if tag =? 16 then [AddFeat a0]
+  else [DelFeat a0].
 
 Definition mk_hash (v : Z) (b : bool) : Z := 2 * v + (if b then 1 else 0).
 
@@ -489,27 +553,29 @@ Definition enc_bools (l : list bool) : list Z := map (fun b : bool => if b then 
 (* observation after every Apply: all ++ box ++ polygon ++ invalid, or [9]
    when it raised *)
 Fixpoint run_obs (hashf : Z -> bool -> Z) (choice : Z -> Z -> list Z)
-         (rows : list row) (feats : list Z) (sr : bool)
+         (rows : list row) (vr : variant)
          (w : world) (ops : list op) : list Z :=
   match ops with
   | [] => []
   | o :: ops' =>
-      let w' := step hashf choice rows feats sr w o in
+      let w' := step hashf choice rows vr w o in
       (match o with
        | Apply _ =>
            if err w' then [9] else
            enc_bools (a_all (flt w')) ++ enc_bools (a_box (flt w'))
            ++ enc_bools (a_polygon (flt w')) ++ enc_bools (a_invalid (flt w'))
        | _ => []
-       end) ++ run_obs hashf choice rows feats sr w' ops'
+       end) ++ run_obs hashf choice rows vr w' ops'
   end.
 
-(* case = (see_removed, rows, feats, registry, choice table, ops) *)
+(* case = (code variant: number of repairs present, rows, feats, registry,
+   choice table, ops) *)
 Definition run_flat
   (case : Z * list (list (Z * Z) * list bool) * list Z * list (Z * (Z * Z))
           * list (Z * Z * list Z) * list (Z * list Z * list (Z * Z))) : list Z :=
-  let '(sr, rws, fts, rg, tab, tops) := case in
+  let '(nv, rws, fts, rg, tab, tops) := case in
   let rows := map dec_row rws in
   let reg0 := map (fun e : Z * (Z * Z) => (fst e, (fst (snd e), negb (snd (snd e) =? 0)))) rg in
-  run_obs mk_hash (mk_choice tab) rows fts (negb (sr =? 0))
-          (init_world rows reg0) (flat_map dec_op tops).
+  run_obs mk_hash (mk_choice tab) rows
+          {| see_removed := 1 <=? nv; precheck := 2 <=? nv; late_feats := 3 <=? nv |}
+          (init_world rows reg0 fts) (flat_map dec_op tops).
